@@ -265,6 +265,20 @@ impl Slot for Option<ruma_common::http_headers::ContentDisposition> {
     }
 }
 
+/// a newtype body that can be JSON `null`: the empty list of the menu stands for `None`
+impl Slot for Option<Vec<String>> {
+    const KIND: FK = FK::List;
+    fn from_fv(v: &FV) -> Self {
+        match v {
+            FV::L(l) if !l.is_empty() => Some(l.clone()),
+            _ => None,
+        }
+    }
+    fn to_fv(&self) -> FV {
+        FV::L(self.clone().unwrap_or_default())
+    }
+}
+
 impl Slot for Vec<String> {
     const KIND: FK = FK::List;
     fn from_fv(v: &FV) -> Self {
